@@ -66,8 +66,9 @@ fn main() {
             let from: u64 = args.get(4).and_then(|s| s.parse().ok()).unwrap_or_else(|| usage());
             let to: u64 = args.get(5).and_then(|s| s.parse().ok()).unwrap_or_else(|| usage());
             let from_file = std::env::var("VERIF_VIA_JSON").is_ok();
-            for i in from..to {
-                let Some(mut sc) = (def.work)(s, tier, i) else { break };
+            let workers: u64 = std::env::var("VERIF_WORKERS").ok().and_then(|s| s.parse().ok()).unwrap_or(1);
+            let line = move |i: u64| -> Option<String> {
+                let mut sc = (def.work)(s, tier, i)?;
                 if from_file {
                     // round-trip through the JSON form, as a replay would
                     let text = serde_json::to_string(&sc).unwrap();
@@ -76,7 +77,36 @@ fn main() {
                 let j = (def.judge)(&sc);
                 let hs: Vec<String> = j.runs.iter().map(|r| format!("{:016x}/{}", r.full, r.events)).collect();
                 let vs: Vec<String> = j.violations.iter().map(|v| format!("{}:{}", v.clause, v.signature)).collect();
-                println!("{i} {} {}", hs.join(","), vs.join(";"));
+                Some(format!("{i} {} {}", hs.join(","), vs.join(";")))
+            };
+            let mut lines: Vec<(u64, String)> = vec![];
+            std::thread::scope(|sc| {
+                let hs: Vec<_> = (0..workers)
+                    .map(|w| {
+                        std::thread::Builder::new()
+                            .stack_size(256 << 20)
+                            .spawn_scoped(sc, move || {
+                                let mut out = vec![];
+                                let mut i = from + w;
+                                while i < to {
+                                    match line(i) {
+                                        Some(l) => out.push((i, l)),
+                                        None => break,
+                                    }
+                                    i += workers;
+                                }
+                                out
+                            })
+                            .unwrap()
+                    })
+                    .collect();
+                for h in hs {
+                    lines.extend(h.join().unwrap());
+                }
+            });
+            lines.sort();
+            for (_, l) in lines {
+                println!("{l}");
             }
         }
         _ => usage(),
